@@ -10,17 +10,60 @@ From RU Require Import Base.Prelude Base.Utf8 Base.Utf8Facts Model.AsciiSet Gen.
   Model.PercentEncoding Model.HostT Model.UrlRecord Model.Parser Model.Setters Model.WF
   Proofs.ListN Proofs.C14_Enc Proofs.C02_Enc Proofs.C02_Parts Proofs.C02_Opaque Proofs.C02_Path Proofs.C02_PathL1
   Proofs.C02_Reach Proofs.C02_AuthParts Proofs.C02_Auth Proofs.C02_AuthWf Proofs.C02_PathSp Proofs.C02_AuthSp
-  Proofs.C02_AuthMain.
+  Proofs.C02_AuthMain Proofs.C02_Hist Proofs.C02_HistInst.
+From RU Require Import Model.Host Proofs.C09_Host Proofs.C16_RT6Model.
 Open Scope string_scope.
 Open Scope N_scope.
 Open Scope list_scope.
 
 (* ---------- A. the full statement ---------- *)
-(* Reachable = results of parse / join and of every mutator of Model/Setters.v (19 operations incl.
+(* Reachable2 = results of parse / join and of every mutator of Model/Setters.v (19 operations incl.
    path_segments_mut sessions and the quirks setters) with arbitrary arguments, outside the computable
-   classes Known_F_C03_5, Known_F_C02_3, Known_F_C02_2, Known_F_C02_8, Known_F_C02_4, Known_file_drive.
-   Not proved in full. *)
+   classes Known_F_C03_5, Known_F_C02_3, Known_F_C02_2, Known_F_C02_8, Known_F_C02_4, Known_F_C02_9,
+   Known_file_drive; host functions constrained by HostOK2 = HostRT /\ host_above /\ ip_clause
+   (Proofs/C02_Hist.v).  Not proved in full. *)
 Definition C02_full_statement : Prop := C02_statement.
+
+(* the first formulation (HostOK, Reachable without Known_F_C02_9): its host hypothesis cannot be met by
+   url::Host, so it says nothing about the real host functions; read for them it is false (F-C02-9) *)
+Definition C02_full_statement_v1 : Prop := C02_statement_v1.
+
+(* A.1  the old host record is refuted by each of two facts, both true of url::Host ... *)
+Theorem C02_HostOK_old_unsat : forall hp hpo hd,
+  hp [] <> Ok (HDomain []) \/ (exists a, a < 4294967296 /\ hpo (hd (HIpv4 a)) <> Ok (HIpv4 a)) ->
+  ~ HostOK hp hpo hd.
+Proof. exact HostOK_old_unsat. Qed.
+Check C02_HostOK_old_unsat : forall hp hpo hd,
+  hp [] <> Ok (HDomain []) \/ (exists a, a < 4294967296 /\ hpo (hd (HIpv4 a)) <> Ok (HIpv4 a)) ->
+  ~ HostOK hp hpo hd.
+Print Assumptions C02_HostOK_old_unsat.
+
+(* ... so no instance of the host model (Model/Host.v, any IDNA function) satisfies it *)
+Theorem C02_HostOK_old_unsat_model : forall idna, ~ HostOK (host_parse idna) host_parse_opaque host_display.
+Proof. exact HostOK_old_unsat_model. Qed.
+Check C02_HostOK_old_unsat_model : forall idna, ~ HostOK (host_parse idna) host_parse_opaque host_display.
+Print Assumptions C02_HostOK_old_unsat_model.
+
+(* A.2  the corrected record keeps everything true of the old one (old + host_above implies new) and is met by
+   the host model for every IDNA function satisfying IdnaOK (C09); IdnaOK has an instance *)
+Theorem C02_HostOK_old_implies_new : forall hp hpo hd, HostOK hp hpo hd -> host_above hp hpo hd -> HostOK2 hp hpo hd.
+Proof. exact HostOK_old_implies_new. Qed.
+Print Assumptions C02_HostOK_old_implies_new.
+
+Theorem C02_HostOK2_model : forall idna, IdnaOK idna -> HostOK2 (host_parse idna) host_parse_opaque host_display.
+Proof. exact HostOK2_model. Qed.
+Check C02_HostOK2_model : forall idna, IdnaOK idna ->
+  HostRT (host_parse idna) host_parse_opaque host_display /\ host_above (host_parse idna) host_parse_opaque host_display
+  /\ ip_clause (host_parse idna) host_parse_opaque host_display.
+Print Assumptions C02_HostOK2_model.
+
+Example C02_HostOK2_inhabited : IdnaOK idna_clean /\ HostOK2 (host_parse idna_clean) host_parse_opaque host_display.
+Proof. exact (conj idna_clean_ok HostOK2_inhabited). Qed.
+
+(* A.3  the corrected quantifier is a restriction of the old one *)
+Theorem C02_Reachable2_old : forall dbg hp hpo hd u, Reachable2 dbg hp hpo hd u -> Reachable dbg hp hpo hd u.
+Proof. exact Reachable2_old. Qed.
+Print Assumptions C02_Reachable2_old.
 
 (* ---------- B. the encoder is idempotent on its own output ---------- *)
 Theorem C02_encode_clean : forall S t, clean S t = true -> encode S t = t.
@@ -269,8 +312,8 @@ Proof. vm_compute. repeat split. Qed.
    for special schemes; classes (iii) and (iv) are sections G and H below (under one more hypothesis on
    the host display, host_above) *)
 Definition C02_L3_remaining_statement : Prop :=
-  forall dbg hp hpo hd, HostOK hp hpo hd -> forall ovr base input u,
-    usv_list input -> (match base with Some b => Reachable dbg hp hpo hd b | None => True end) ->
+  forall dbg hp hpo hd, HostOK2 hp hpo hd -> forall ovr base input u,
+    usv_list input -> (match base with Some b => Reachable2 dbg hp hpo hd b | None => True end) ->
     parse_url dbg hp hpo hd ovr base input = POk u -> Known_file_drive u = false ->
     Fixpoint_of_reparse dbg hp hpo hd u.
 
@@ -302,7 +345,20 @@ Check C02_L3_auth : forall dbg hp hpo hd, HostRT hp hpo hd -> forall u,
   canon_auth hp hpo hd STNotSpecial u -> parse_url dbg hp hpo hd None None (utf8_lossy (ser u)) = POk u.
 Print Assumptions C02_L3_auth.
 
-(* L1 + L3 under HostOK *)
+(* L1 + L3 under HostOK2, the hypothesis the host model meets *)
+Theorem C02_reparse_auth2 : forall dbg hp hpo hd ovr input u,
+  HostOK2 hp hpo hd -> usv_list input -> auth_input input = true ->
+  parse_url dbg hp hpo hd ovr None input = POk u ->
+  Fixpoint_of_reparse dbg hp hpo hd u /\ wf_b u = true /\ canon_auth hp hpo hd STNotSpecial u.
+Proof. exact reparse_auth_HostOK2. Qed.
+Check C02_reparse_auth2 : forall dbg hp hpo hd ovr input u,
+  HostOK2 hp hpo hd -> usv_list input -> auth_input input = true ->
+  parse_url dbg hp hpo hd ovr None input = POk u ->
+  parse_url dbg hp hpo hd None None (utf8_lossy (ser u)) = POk u /\ wf_b u = true /\ canon_auth hp hpo hd STNotSpecial u.
+Print Assumptions C02_reparse_auth2.
+
+(* L1 + L3 under the old HostOK (vacuous for url::Host - C02_HostOK_old_unsat_model; kept, superseded by
+   C02_reparse_auth2) *)
 Theorem C02_reparse_auth : forall dbg hp hpo hd ovr input u,
   HostOK hp hpo hd -> host_above hp hpo hd -> usv_list input -> auth_input input = true ->
   parse_url dbg hp hpo hd ovr None input = POk u ->
@@ -373,6 +429,18 @@ Check C02_L3_special : forall dbg hp hpo hd, HostRT hp hpo hd -> forall u,
   canon_special hp hpo hd u -> parse_url dbg hp hpo hd None None (utf8_lossy (ser u)) = POk u.
 Print Assumptions C02_L3_special.
 
+Theorem C02_reparse_special2 : forall dbg hp hpo hd input u,
+  HostOK2 hp hpo hd -> usv_list input -> special_input input = true ->
+  parse_url dbg hp hpo hd None None input = POk u ->
+  Fixpoint_of_reparse dbg hp hpo hd u /\ wf_b u = true /\ canon_special hp hpo hd u.
+Proof. exact reparse_special_HostOK2. Qed.
+Check C02_reparse_special2 : forall dbg hp hpo hd input u,
+  HostOK2 hp hpo hd -> usv_list input -> special_input input = true ->
+  parse_url dbg hp hpo hd None None input = POk u ->
+  parse_url dbg hp hpo hd None None (utf8_lossy (ser u)) = POk u /\ wf_b u = true /\ canon_special hp hpo hd u.
+Print Assumptions C02_reparse_special2.
+
+(* under the old HostOK (vacuous for url::Host; superseded by C02_reparse_special2) *)
 Theorem C02_reparse_special : forall dbg hp hpo hd input u,
   HostOK hp hpo hd -> host_above hp hpo hd -> usv_list input -> special_input input = true ->
   parse_url dbg hp hpo hd None None input = POk u ->
@@ -407,6 +475,18 @@ Proof. exact special_examples. Qed.
 
 (* ---------- I. the union of classes (i)-(iv): every URL parsed without a base whose scheme is not file ---------- *)
 (* nonfile_input: decided on the input - it has a scheme and the scheme is not "file" (no encoding override) *)
+Theorem C02_reparse_nonfile2 : forall dbg hp hpo hd input u,
+  HostOK2 hp hpo hd -> usv_list input -> nonfile_input input = true ->
+  parse_url dbg hp hpo hd None None input = POk u ->
+  Fixpoint_of_reparse dbg hp hpo hd u /\ wf_b u = true /\ ascii (ser u).
+Proof. exact reparse_nonfile_HostOK2. Qed.
+Check C02_reparse_nonfile2 : forall dbg hp hpo hd input u,
+  HostOK2 hp hpo hd -> usv_list input -> nonfile_input input = true ->
+  parse_url dbg hp hpo hd None None input = POk u ->
+  parse_url dbg hp hpo hd None None (utf8_lossy (ser u)) = POk u /\ wf_b u = true /\ ascii (ser u).
+Print Assumptions C02_reparse_nonfile2.
+
+(* under the old HostOK (vacuous for url::Host; superseded by C02_reparse_nonfile2) *)
 Theorem C02_reparse_nonfile : forall dbg hp hpo hd input u,
   HostOK hp hpo hd -> host_above hp hpo hd -> usv_list input -> nonfile_input input = true ->
   parse_url dbg hp hpo hd None None input = POk u ->
@@ -452,6 +532,47 @@ Theorem C02_F_C02_4_refuted :
   witness_step (fun u o => Known_F_C02_4 u o) "a://h:80/" (OSetHost (Some [])) "a://:80/" = true.
 Proof. exact F_C02_4_refuted. Qed.
 Print Assumptions C02_F_C02_4_refuted.
+
+(* F-C02-9: set_ip_host with an IPv4 address on a URL whose scheme is not special - same text and offsets, host
+   kind Ipv4 vs Domain after re-parsing; the step is outside the old known_step (second conjunct) *)
+Theorem C02_F_C02_9_refuted :
+  witness_step Known_F_C02_9 "a://x/" (OSetIpHost (HIpv4 2130706433)) "a://127.0.0.1/" = true
+  /\ match toy_parse "a://x/" with
+     | POk u => negb (known_step true toy_hp toy_hp toy_hd u (OSetIpHost (HIpv4 2130706433)))
+                && match toy_apply u (OSetIpHost (HIpv4 2130706433)) with
+                   | Some u' => hi_eqb (hosti u') (HI_Ipv4 2130706433)
+                                && match toy_reparse u' with
+                                   | POk v => list_eqb (ser v) (ser u') && hi_eqb (hosti v) HI_Domain
+                                   | _ => false
+                                   end
+                   | None => false
+                   end
+     | _ => false
+     end = true.
+Proof. exact F_C02_9_refuted. Qed.
+Print Assumptions C02_F_C02_9_refuted.
+
+(* the same on the parser model linked with the host model (Model/Host.v, idna_clean) *)
+Theorem C02_F_C02_9_model :
+  match mparse (B "a://x/") with
+  | POk u =>
+      let o := OSetIpHost (HIpv4 2130706433) in
+      negb (known_step true (host_parse idna_clean) host_parse_opaque host_display u o)
+      && Known_F_C02_9 u o
+      && known_step2 true (host_parse idna_clean) host_parse_opaque host_display u o
+      && match apply_op true (host_parse idna_clean) host_parse_opaque host_display u o with
+         | Some u' =>
+             list_eqb (ser u') (B "a://127.0.0.1/") && hi_eqb (hosti u') (HI_Ipv4 2130706433)
+             && match mparse (utf8_lossy (ser u')) with
+                | POk v => list_eqb (ser v) (ser u') && hi_eqb (hosti v) HI_Domain && negb (url_eqb v u')
+                | _ => false
+                end
+         | None => false
+         end
+  | _ => false
+  end = true.
+Proof. exact F_C02_9_model. Qed.
+Print Assumptions C02_F_C02_9_model.
 
 Theorem C02_F_C02_1_refuted :
   match toy_parse "file://x.y///c:" with
